@@ -2,6 +2,7 @@ package main
 
 import (
 	"os"
+	"sort"
 	"strings"
 	"syscall"
 
@@ -84,9 +85,9 @@ func planOf(thorough bool) plan {
 			types: 400, primRounds: 6, segments: 200, compress: 200, random: 80, large: 13,
 			dcBlocks: 80, dcBlock: 8, dcDepth: 4, mismatch: 12, mismatchPool: 32, resource: 120}
 	}
-	return plan{pairEvery: 5, frameDraws: 1, shapeBlocks: 2, shapeEvery: 61, shapeFields: 12, compDraws: 1, compEvery: 6, crossDraws: 1,
+	return plan{pairEvery: 6, frameDraws: 1, shapeBlocks: 2, shapeEvery: 61, shapeFields: 12, compDraws: 1, compEvery: 6, crossDraws: 1,
 		types: 40, primRounds: 1, segments: 18, compress: 20, random: 6, large: 13,
-		dcBlocks: 10, dcBlock: 8, dcDepth: 3, mismatch: 2, mismatchPool: 20, resource: 12}
+		dcBlocks: 9, dcBlock: 8, dcDepth: 3, mismatch: 2, mismatchPool: 20, resource: 12}
 }
 
 func buildUnits(seed int64, thorough bool) []unit {
@@ -146,6 +147,20 @@ func buildUnits(seed int64, thorough bool) []unit {
 	for i := 0; i < p.mismatch; i++ {
 		add(dDcMismatch, i, 0)
 	}
+	// dispatch order: the domains whose units are long (worker deaths queue up inside a unit) first,
+	// the short ones last, so that the run does not end with one worker finishing a long unit alone
+	prio := map[int]int{dDatacodec: 0, dDcMismatch: 1, dFrameSweep: 2, dPrim: 3, dLarge: 4, dFrameComp: 5, dSegment: 6, dFrameShapes: 7}
+	sort.SliceStable(us, func(a, b int) bool {
+		pa, oka := prio[us[a].dom]
+		pb, okb := prio[us[b].dom]
+		if !oka {
+			pa = 99
+		}
+		if !okb {
+			pb = 99
+		}
+		return pa < pb
+	})
 	if only := os.Getenv("C04_ONLY_DOMAINS"); only != "" { // development aid
 		var f []unit
 		for _, u := range us {
